@@ -16,23 +16,8 @@ From Coq Require Import NArith.
 From OC Require Import Model.Proto2.
 Open Scope N_scope.
 
-(* Candidate repairs of the lost wake-ups (fixes/C09-*.patch), switchable so that the same definitions give the
-   model of the code as it is ([no_fixes]) and of the repaired code ([all_fixes]).  None of them changes an effect:
-   they only add re-queue requests / watcher ids, so the underlying Proto2 step relation is untouched.
-     fx_next     proposal controller: the invocation that completes a proposal's commit, abort or apply (APPLIED or
-                 FAILED) returns Requeue{NextIndex}, and the states ABORTED and apply-FAILED re-queue NextIndex like
-                 COMMITTED and APPLIED already do; an ABORTING proposal that has to wait for its predecessor re-queues
-                 PrevIndex like a VALIDATING or APPLYING one already does
-     fx_initfail transaction controller: the invocation that fails a transaction's initialisation returns
-                 Requeue{index+1}
-     fx_proposed proposal.ConfigurationWatcher also names (target, Status.Proposed.Index) *)
-Record fixes := mkFixes { fx_next : bool; fx_initfail : bool; fx_proposed : bool }.
-Definition no_fixes : fixes := mkFixes false false false.
-Definition all_fixes : fixes := mkFixes true true true.
-
 Section Proto2Queue.
   Context {V Ch Req D : Type}.
-  Context (fx : fixes).
   Context (candidate : V -> Ch -> V) (candidate_rb : V -> Ch -> V) (rollback_of : V -> Ch -> Ch)
           (overlay : V -> V -> V) (commit_merge : N -> N -> V -> V -> Ch -> V)
           (payload : N -> V -> Ch -> option Req) (record_applied : N -> V -> V -> V -> Ch -> V)
@@ -50,12 +35,11 @@ Section Proto2Queue.
 
   (** * Watchers: the ids a successful store write wakes ([w] = the world BEFORE the write) *)
   (* a configuration event carries the configuration as written:
-       proposal.ConfigurationWatcher      -> (target, Index) and (target, Status.Applied.Index)
+       proposal.ConfigurationWatcher      -> (target, Index), (target, Status.Applied.Index) and (target, Status.Proposed.Index)
        configuration.Watcher              -> the configuration id
        mastership.ConfigurationStoreWatcher -> the configuration id *)
   Definition cfg_wakes (t : N) (c : @config V) : list ctrl :=
-    [CtlProp (t, c_index c); CtlProp (t, c_applied c)] ++ (if fx_proposed fx then [CtlProp (t, c_proposed c)] else [])
-    ++ [CtlCfg t; CtlMaster t].
+    [CtlProp (t, c_index c); CtlProp (t, c_applied c); CtlProp (t, c_proposed c); CtlCfg t; CtlMaster t].
   (* a proposal event: transaction.ProposalWatcher -> TransactionIndex, proposal.Watcher -> the proposal id *)
   Definition prop_wakes (k : N * N) : list ctrl := [CtlTx (snd k); CtlProp k].
   (* a CONTROLS relation event: connection.TopoWatcher -> the relation id when the source is this node;
@@ -91,47 +75,6 @@ Section Proto2Queue.
     | RRequeueTx i => [CtlTx i]
     | RRequeueProp k => [CtlProp k]
     | RRetry => [c]
-    end.
-
-  (* the repaired results (they replace a plain "done" only) *)
-  Definition is_ph (o : option ph) (p : ph) : bool := bool_decide (o = Some p).
-  (* the write P -> P' completes the commit, the abort or the apply of the proposal *)
-  Definition completes (P P' : @prop Ch) : bool :=
-    (is_ph (p_commit P) Doing && is_ph (p_commit P') Done)
-    || (is_ph (p_abort P) Doing && is_ph (p_abort P') Done)
-    || (is_ph (p_apply P) Doing && (is_ph (p_apply P') Done || is_ph (p_apply P') Failed)).
-  (* a proposal parked in ABORTED or in apply-FAILED *)
-  Definition dead_end (P : @prop Ch) : bool :=
-    is_ph (p_apply P) Failed || (is_none (p_apply P) && is_ph (p_abort P) Done).
-  Definition next_of (t : N) (P : @prop Ch) : list ctrl := if p_next P =? 0 then [] else [CtlProp (t, p_next P)].
-
-  Fixpoint last_eff (es : list eff) : option eff :=
-    match es with [] => None | [e] => Some e | _ :: r => last_eff r end.
-
-  Definition fix_requeue (w : world) (c : ctrl) (es : list eff) (r : result) : list ctrl :=
-    match r, c with
-    | RDone, CtlProp (t, i) =>
-      if fx_next fx then
-        match props w !! (t, i) with
-        | Some P =>
-          match last_eff es with
-          | None => if dead_end P then next_of t P
-                    else if is_none (p_apply P) && is_ph (p_abort P) Doing && negb (p_prev P =? 0) then [CtlProp (t, p_prev P)]
-                    else []
-          | Some (EPutProp k' P') => if bool_decide (k' = (t, i)) && completes P P' then next_of t P' else []
-          | Some _ => []
-          end
-        | None => []
-        end
-      else []
-    | RDone, CtlTx i =>
-      if fx_initfail fx then
-        match last_eff es with
-        | Some (EPutTx i' T') => if bool_decide (i' = i) && is_ph (t_init T') Failed then [CtlTx (i + 1)] else []
-        | _ => []
-        end
-      else []
-    | _, _ => []
     end.
 
   (* environment: the ids an environment label wakes ([w] = the world BEFORE the label)
@@ -171,7 +114,7 @@ Section Proto2Queue.
       | Some c =>
         let '(es, r) := reconcile o (qw s) c in
         let '(w', q) := apply_effs (qw s) es in
-        mkQW w' (remove_nth n (queue s) ++ q ++ requeue c r ++ fix_requeue (qw s) c es r)
+        mkQW w' (remove_nth n (queue s) ++ q ++ requeue c r)
       end
     | QEnv (LRec _ _ _) => s
     | QEnv l => mkQW (step (qw s) l) (queue s ++ env_wakes (qw s) l)
